@@ -213,6 +213,100 @@ theorem neverTornCheck_sound (p : Path) (fs : FS α) (t : List (Effect α))
       · exact h0
       · exact ih (step fs e) hrest hstep s hs
 
+/-! ### the "always present" discipline -/
+
+/-- effect `e` cannot make `p` disappear: `p` is never unlinked, removed or renamed away -/
+def keepsPresent (p : Path) : Effect α → Bool
+  | .unlink q => q != p
+  | .rmdir q => q != p
+  | .replace s _ => s != p
+  | _ => true
+
+def alwaysPresentCheck (p : Path) (t : List (Effect α)) : Bool := t.all (keepsPresent p)
+
+theorem step_preserves_present (p : Path) (fs : FS α) (e : Effect α)
+    (hs : keepsPresent p e = true) (h : fs p ≠ .absent) : (step fs e) p ≠ .absent := by
+  cases e with
+  | openW q => by_cases hq : p = q <;> simp [step, FS.set, hq, h]
+  | openA q => simpa [step] using h
+  | write q =>
+    by_cases hpq : p = q
+    · cases hq : fs q <;> simp_all [step, FS.set]
+    · cases hq : fs q <;> simp [step, hq, FS.set, hpq, h]
+  | flush q => simpa [step] using h
+  | fsync q => simpa [step] using h
+  | close q c =>
+    by_cases hpq : p = q
+    · cases hq : fs q <;> simp_all [step, FS.set]
+    · cases hq : fs q <;> simp [step, hq, FS.set, hpq, h]
+  | replace s d =>
+    have hps : p ≠ s := by intro h'; subst h'; simp [keepsPresent] at hs
+    by_cases hpd : p = d
+    · cases hst : fs s <;> simp_all [step, FS.set]
+    · cases hst : fs s <;> simp [step, hst, FS.set, hps, hpd, h]
+  | copyfile s d =>
+    by_cases hpd : p = d
+    · cases hst : fs s <;> simp_all [step, FS.set]
+    · cases hst : fs s <;> simp [step, hst, FS.set, hpd, h]
+  | unlink q =>
+    have hpq : p ≠ q := by intro h'; subst h'; simp [keepsPresent] at hs
+    simp [step, FS.set, hpq, h]
+  | rmdir q =>
+    have hpq : p ≠ q := by intro h'; subst h'; simp [keepsPresent] at hs
+    simp [step, FS.set, hpq, h]
+  | mkdir q =>
+    by_cases hpq : p = q
+    · cases hq : fs q <;> simp_all [step, FS.set]
+    · cases hq : fs q <;> simp [step, hq, FS.set, hpq, h]
+  | other q => simpa [step] using h
+
+theorem mid_preserves_present (p : Path) (fs : FS α) (e : Effect α) (m : FS α)
+    (h : fs p ≠ .absent) (hm : mid fs e = some m) : m p ≠ .absent := by
+  cases e with
+  | write q =>
+    by_cases hpq : p = q
+    · cases hq : fs q <;> simp [mid, hq] at hm <;> subst hm <;> simp [FS.set, hpq]
+    · cases hq : fs q <;> simp [mid, hq] at hm <;> subst hm <;> simp [FS.set, hpq, h]
+  | copyfile s d =>
+    by_cases hpd : p = d
+    · cases hq : fs s <;> simp [mid, hq] at hm <;> subst hm <;> simp [FS.set, hpd]
+    · cases hq : fs s <;> simp [mid, hq] at hm <;> subst hm <;> simp [FS.set, hpd, h]
+  | openW q => simp [mid] at hm
+  | openA q => simp [mid] at hm
+  | flush q => simp [mid] at hm
+  | fsync q => simp [mid] at hm
+  | close q c => simp [mid] at hm
+  | replace s d => simp [mid] at hm
+  | unlink q => simp [mid] at hm
+  | rmdir q => simp [mid] at hm
+  | mkdir q => simp [mid] at hm
+  | other q => simp [mid] at hm
+
+/-- soundness, for every trace and starting directory: a file that exists and is never unlinked or renamed away
+    exists at every crash point -/
+theorem alwaysPresentCheck_sound (p : Path) (fs : FS α) (t : List (Effect α))
+    (hc : alwaysPresentCheck p t = true) (h0 : fs p ≠ .absent) :
+    ∀ s ∈ crashStates fs t, s p ≠ .absent := by
+  induction t generalizing fs with
+  | nil => intro s hs; simp [crashStates] at hs; subst hs; exact h0
+  | cons e es ih =>
+    simp only [alwaysPresentCheck, List.all_cons, Bool.and_eq_true] at hc
+    obtain ⟨hsafe, hrest⟩ := hc
+    have hstep := step_preserves_present p fs e hsafe h0
+    intro s hs
+    simp only [crashStates] at hs
+    split at hs
+    · rename_i m hm
+      simp only [List.mem_cons] at hs
+      rcases hs with rfl | rfl | hs
+      · exact h0
+      · exact mid_preserves_present p fs e _ h0 hm
+      · exact ih (step fs e) hrest hstep s hs
+    · simp only [List.mem_cons] at hs
+      rcases hs with rfl | hs
+      · exact h0
+      · exact ih (step fs e) hrest hstep s hs
+
 /-! ### the readers -/
 
 theorem recover_internal_iff (fs : FS α) : recover fs = .internalError ↔ fs pCmdline = .torn := by
